@@ -21,7 +21,8 @@ def scratch(prefix="shexer-verif-"):
 
 
 def _cmd(module, cfg, workers, metadir, extra, heap, xss=None):
-    return ["java", "-XX:+UseParallelGC", "-Xmx%s" % heap] + (["-Xss%s" % xss] if xss else []) + ["-cp", JAR, "tlc2.TLC",
+    gc = ["-XX:+UseSerialGC"] if workers == 1 else ["-XX:+UseParallelGC"]      # many single-worker monitors run side by side
+    return ["java"] + gc + ["-Xmx%s" % heap] + (["-Xss%s" % xss] if xss else []) + ["-cp", JAR, "tlc2.TLC",
             "-workers", str(workers), "-metadir", metadir, "-noGenerateSpecTE", "-config", cfg] + list(extra) + [module]
 
 
